@@ -121,6 +121,9 @@ func ResourceYAML(r ResSpec) string {
 		return fmt.Sprintf("apiVersion: batch/v1\nkind: Job\nmetadata:\n  name: %s\n%sspec:\n  template:\n    spec:\n      restartPolicy: Never\n      containers:\n      - name: c\n        image: i:v%d\n", r.Name, anno, r.Variant)
 	case "Pod":
 		return fmt.Sprintf("apiVersion: v1\nkind: Pod\nmetadata:\n  name: %s\n%sspec:\n  containers:\n  - name: c\n    image: i:v%d\n", r.Name, anno, r.Variant)
+	case "ClusterRole": // cluster-scoped (store path /apis/rbac.authorization.k8s.io/v1/clusterroles/<name>)
+		verbs := []string{`["get"]`, `["get", "list"]`}[min(r.Variant, 2)-1]
+		return fmt.Sprintf("apiVersion: rbac.authorization.k8s.io/v1\nkind: ClusterRole\nmetadata:\n  name: %s\n%srules:\n- apiGroups: [\"\"]\n  resources: [\"pods\"]\n  verbs: %s\n", r.Name, anno, verbs)
 	}
 	panic("kind " + r.Kind)
 }
